@@ -102,11 +102,15 @@ func (s *Scanner) Scan(ctx context.Context, r *scan.Request) (result scan.Result
 	host := "tcp://" + addr
 
 	var docker *moby.Client
+	// WithHost configures the transport of the client it finds for the host, which includes
+	// the proxies of the environment (HTTP_PROXY, ALL_PROXY): the scanner's own client is
+	// installed after it, so that probes go to the target and nowhere else
+	// (and the transport shared by all workers is not modified by every probe)
 	if docker, err = moby.NewClientWithOpts(
 		moby.WithAPIVersionNegotiation(),
-		moby.WithHTTPClient(s.client),
 		moby.WithScheme(s.proto),
 		moby.WithHost(host),
+		moby.WithHTTPClient(s.client),
 	); err != nil {
 		return
 	}
